@@ -263,3 +263,37 @@ def c20_locks(src):
                         writers.append("%s.%s line %d" % (cname, mname, n.lineno))
     res["C20/static:no-other-registry-writer"] = {"status": "discharged" if not writers else "refuted", "ms": 0, "backend": "static-scan", "complete": True, "note": "; ".join(writers)}
     return res
+
+
+def lean_lemmas(src):
+    """the fold lemma schemas behind contracts/lemmas.py are proved in Lean 4 + Mathlib
+    (lemmas/Fold.lean); the result is cached in .build/ keyed by the file's sha256"""
+    import hashlib, json, os, subprocess, fcntl
+    root = os.path.dirname(os.path.dirname(os.path.abspath(__file__)))
+    path = os.path.join(root, "lemmas", "Fold.lean")
+    text = open(path, encoding="utf-8").read()
+    sha = hashlib.sha256(text.encode()).hexdigest()
+    build = os.path.join(root, ".build")
+    os.makedirs(build, exist_ok=True)
+    marker = os.path.join(build, "lean_ok.json")
+    oid = "lemmas/lean:Fold.lean-checked"
+    if "sorry" in text or "axiom " in text:
+        return {oid: {"status": "refuted", "note": "Fold.lean contains sorry/axiom", "ms": 0, "backend": "lean", "complete": True}}
+    with open(os.path.join(build, "lock"), "w") as lk:
+        fcntl.flock(lk, fcntl.LOCK_EX)
+        try:
+            if os.path.exists(marker) and json.load(open(marker)).get("sha") == sha:
+                return {oid: {"status": "discharged", "note": "lean (cached result for this file hash)", "ms": 0, "backend": "lean-4"}}
+        except Exception:
+            pass
+        import time
+        t = time.time()
+        try:
+            p = subprocess.run(["lean", path], capture_output=True, text=True, timeout=900)
+            ok = p.returncode == 0 and "error" not in p.stdout
+        except Exception as e:
+            return {oid: {"status": "undecided", "note": "lean could not be run: %s" % e, "ms": 0, "backend": "lean"}}
+        if ok:
+            json.dump({"sha": sha}, open(marker, "w"))
+            return {oid: {"status": "discharged", "note": "lean exit 0", "ms": round((time.time() - t) * 1000), "backend": "lean-4"}}
+        return {oid: {"status": "undecided", "note": "lean reported errors: %s" % p.stdout[-300:], "ms": 0, "backend": "lean"}}
